@@ -75,6 +75,28 @@ example : renderStmt (.kinetic (some "1e3") (some "2.5E6") ["A", "B"] ["C"]) =
 example : renderDecl ⟨"Comp-1", ["n", "toe"], [⟨"x", true, some "S"⟩, ⟨"y", false, none⟩], [⟨"z", false, some "T"⟩]⟩ =
     "declare component Comp-1(n, toe): x*(S) + y -> z(T)" := by decide
 
+/-- the theorems at concrete strings: these lines are accepted with exactly these ASTs -/
+example : parseLine "sequence toe-1 = \"5N ?S\" a_b* domains(X) : 12" =
+    .ok (.seq "toe-1" [.nuc "5N ?S".toList, .ref "a_b" true, .domains "X" false] (some 12)) := by
+  have h := parse_render_single (.seq "toe-1" [.nuc "5N ?S".toList, .ref "a_b" true, .domains "X" false] (some 12)) (by decide)
+  rwa [show renderStmt (.seq "toe-1" [.nuc "5N ?S".toList, .ref "a_b" true, .domains "X" false] (some 12)) =
+    "sequence toe-1 = \"5N ?S\" a_b* domains(X) : 12" by decide] at h
+example : parseLine "structure [1.5nt] Gate = S + T-2 : domain U3 H2(U4 +) U1" =
+    .ok (.struct (.value "1.5") "Gate" ["S", "T-2"] true "U3 H2(U4 +) U1".toList) := by
+  have h := parse_render_single (.struct (.value "1.5") "Gate" ["S", "T-2"] true "U3 H2(U4 +) U1".toList) (by decide)
+  rwa [show renderStmt (.struct (.value "1.5") "Gate" ["S", "T-2"] true "U3 H2(U4 +) U1".toList) =
+    "structure [1.5nt] Gate = S + T-2 : domain U3 H2(U4 +) U1" by decide] at h
+example : parseLine "kinetic [1e3 /M/s < k < 2.5E6 /M/s] A + B -> C" =
+    .ok (.kinetic (some "1e3") (some "2.5E6") ["A", "B"] ["C"]) := by
+  have h := parse_render_single (.kinetic (some "1e3") (some "2.5E6") ["A", "B"] ["C"]) (by decide)
+  rwa [show renderStmt (.kinetic (some "1e3") (some "2.5E6") ["A", "B"] ["C"]) =
+    "kinetic [1e3 /M/s < k < 2.5E6 /M/s] A + B -> C" by decide] at h
+example : parseDeclare "declare component Comp-1(n, toe): x*(S) + y -> z(T)" =
+    .ok ⟨"Comp-1", ["n", "toe"], [⟨"x", true, some "S"⟩, ⟨"y", false, none⟩], [⟨"z", false, some "T"⟩]⟩ := by
+  have h := parse_render_declare_single ⟨"Comp-1", ["n", "toe"], [⟨"x", true, some "S"⟩, ⟨"y", false, none⟩], [⟨"z", false, some "T"⟩]⟩ (by decide)
+  rwa [show renderDecl ⟨"Comp-1", ["n", "toe"], [⟨"x", true, some "S"⟩, ⟨"y", false, none⟩], [⟨"z", false, some "T"⟩]⟩ =
+    "declare component Comp-1(n, toe): x*(S) + y -> z(T)" by decide] at h
+
 /-! ### (b) what is accepted has well-formed names -/
 
 /-- the name class is `[A-Za-z0-9_-]` -/
